@@ -5,7 +5,7 @@
 cd /verif
 for d in seeded/*/; do
   n=$(basename $d)
-  id=$(python3 -c "import json;print(json.load(open('$d/meta.json'))['property'])")
+  id=$(python3 -c "import json;m=json.load(open('$d/meta.json'));print(m.get('run_against',m['property']))")
   base=HEAD
   if grep -q SUPERSEDED $d/meta.json; then base=d09aac2; fi
   out=$(BASE=$base ./try_seeded.sh $d/patch.diff quick $id 2>&1 | grep -v conda)
